@@ -107,7 +107,10 @@ def make_session(rng):
            "mode": mode, "N": N, "G": G, "q": rng.choice([0.3, 0.5, 0.7]) if mode == "quantile" else None,
            "M": (rng.randint(max(3, N // 3), N - 1) if rng.random() < 0.35 and mode != "rejection" else None),
            "cont": (mode == "quantile" and rng.random() < 0.5), "sigma": (rng.choice([0.05, 0.2]) if loss_type == "NormalLoss" else None),
-           "states": states}
+           "states": states,
+           # population constraint: the named state's initial value is set to (total - the others) after every update of the
+           # inferred initial conditions
+           "constraint": ((float(sum(x0)), rng.choice(["S", "R"])) if (state_target is not None and rng.random() < 0.6) else None)}
     return cfg, ode, y
 
 
@@ -193,6 +196,12 @@ def perform_session(seed):
     def recompute(particle):
         vals, has_state = model_values(cfg, particle, fresh)
         fresh._setX0(x0_orig)
+        if has_state and cfg.get("constraint"):
+            total, cname = cfg["constraint"]
+            fresh._setParamStateInput(vals)
+            ci = cfg["states"].index(cname)
+            fresh._x0[ci] = total - sum(float(v) for k, v in enumerate(fresh._x0) if k != ci)
+            return float(fresh.cost())
         if has_state:
             return float(fresh.costIV(vals))
         return float(fresh.cost(vals))
@@ -203,9 +212,13 @@ def perform_session(seed):
         named = {}
         for p, v in zip(cfg["table"], particle):
             named[p["name"]] = 10.0 ** float(v) if p["logscale"] else float(v)
+        if cfg.get("constraint") and any(p["is_state"] for p in cfg["table"]):
+            total, cname = cfg["constraint"]
+            others = sum(float(named.get(s_, v0)) for s_, v0 in zip(cfg["states"], cfg["x0"]) if s_ != cname)
+            named[cname] = total - others
         return refcost(named)
 
-    abc = pgabc.ABC(obj, params)
+    abc = pgabc.ABC(obj, params, constraint=tuple(cfg["constraint"])) if cfg.get("constraint") else pgabc.ABC(obj, params)
     rec = []                       # raw events
     orig = pgabc.ABC._perform_generation
 
